@@ -1,6 +1,7 @@
 package props
 
 import (
+	"strconv"
 	"context"
 	"fmt"
 	"net/http"
@@ -213,28 +214,7 @@ func init() {
 
 func c14Custom(rc *RunCtx, rep *Report) {
 	worlds := c14Worlds()
-	type job struct {
-		w   int
-		idx []int
-	}
-	var jobs []job
-	for wi, w := range worlds {
-		n := len(w.rpcs)
-		for a := 0; a < n; a++ {
-			for b := a; b < n; b++ {
-				jobs = append(jobs, job{wi, []int{a, b}})
-			}
-		}
-		if rc.Tier == "thorough" {
-			for a := 0; a < n; a++ {
-				for b := a + 1; b < n; b++ {
-					for c := b + 1; c < n; c++ {
-						jobs = append(jobs, job{wi, []int{a, b, c}})
-					}
-				}
-			}
-		}
-	}
+	jobs := c14Jobs(rc.Tier)
 	// solo baselines
 	solo := map[string]c14Outcome{}
 	for wi, w := range worlds {
@@ -302,34 +282,8 @@ func c14Custom(rc *RunCtx, rep *Report) {
 					switches++
 				}
 			}
-			if last.problem != "" {
-				fail("harness.problem", "%s", last.problem)
-			}
-			if run.Deadlock {
-				fail("C14.deadlock", "threads blocked: %v", run.Blocked)
-			}
-			if run.Livelock {
-				fail("C14.livelock", "step horizon reached")
-			}
-			for _, st := range last.stats {
-				if st.DoublePuts > 0 {
-					fail("C14.pool-double-put", "a pool element was Put while it already was in the pool (%d times): two later Gets would hand the same element to two holders", st.DoublePuts)
-				}
-			}
-			for k, i := range j.idx {
-				base := solo[fmt.Sprintf("%d/%d", j.w, i)]
-				o := last.outs[k]
-				switch {
-				case o.panic != "" && base.panic == "":
-					fail("C14.panic", "RPC %s panicked only when run concurrently: %s", w.rpcs[i].name, o.panic)
-				case o.client != base.client:
-					fail("C14.outcome-differs-from-solo", "RPC %s: client-side result differs from its solo run\n solo:       %s\n concurrent: %s", w.rpcs[i].name, short(base.client), short(o.client))
-				case o.backend != base.backend:
-					fail("C14.outcome-differs-from-solo", "RPC %s: what its backend saw differs from its solo run\n solo:       %s\n concurrent: %s", w.rpcs[i].name, short(base.backend), short(o.backend))
-				}
-				if strings.Contains(o.client, "poison=true") || strings.Contains(o.backend, "poison=true") {
-					fail("C14.use-after-put", "RPC %s: poison bytes (written into buffers when they are returned to the pool) reached an output", w.rpcs[i].name)
-				}
+			for _, f := range c14Judge(w, j.w, j.idx, solo, run, last.outs, last.stats, last.problem) {
+				fail(f[0], "%s", f[1])
 			}
 			if switches > len(j.idx)-1 {
 				rep.Nontrivial[fmt.Sprintf("%d:%v:%v", j.w, j.idx, run.Choices())] = struct{}{}
@@ -369,6 +323,146 @@ func c14Custom(rc *RunCtx, rep *Report) {
 	rep.Extra["jobs"] = len(jobs)
 	rep.Extra["preemption_bound"] = map[string]int{"pairs_quick": 2, "pairs_thorough": 3, "triples_thorough": 2}
 	rep.Notes["wall_ms"] = time.Since(start).Milliseconds()
+}
+
+// c14Judge is the oracle of harness A for one finished schedule.
+func c14Judge(w c14World, wi int, idx []int, solo map[string]c14Outcome, run *sched.Run, outs []c14Outcome, stats []verifsync.PoolStats, problem string) [][2]string {
+	var fails [][2]string
+	fail := func(clause, format string, args ...any) {
+		fails = append(fails, [2]string{clause, fmt.Sprintf(format, args...)})
+	}
+	if problem != "" {
+		fail("harness.problem", "%s", problem)
+	}
+	if run.Deadlock {
+		fail("C14.deadlock", "threads blocked: %v", run.Blocked)
+	}
+	if run.Livelock {
+		fail("C14.livelock", "step horizon reached")
+	}
+	for _, st := range stats {
+		if st.DoublePuts > 0 {
+			fail("C14.pool-double-put", "a pool element was Put while it already was in the pool (%d times): two later Gets would hand the same element to two holders", st.DoublePuts)
+		}
+	}
+	for k, i := range idx {
+		base := solo[fmt.Sprintf("%d/%d", wi, i)]
+		o := outs[k]
+		switch {
+		case o.panic != "" && base.panic == "":
+			fail("C14.panic", "RPC %s panicked only when run concurrently: %s", w.rpcs[i].name, o.panic)
+		case o.client != base.client:
+			fail("C14.outcome-differs-from-solo", "RPC %s: client-side result differs from its solo run\n solo:       %s\n concurrent: %s", w.rpcs[i].name, short(base.client), short(o.client))
+		case o.backend != base.backend:
+			fail("C14.outcome-differs-from-solo", "RPC %s: what its backend saw differs from its solo run\n solo:       %s\n concurrent: %s", w.rpcs[i].name, short(base.backend), short(o.backend))
+		}
+		if strings.Contains(o.client, "poison=true") || strings.Contains(o.backend, "poison=true") {
+			fail("C14.use-after-put", "RPC %s: poison bytes (written into buffers when they are returned to the pool) reached an output", w.rpcs[i].name)
+		}
+	}
+	return fails
+}
+
+// c14Jobs lists the RPC combinations of a tier.
+func c14Jobs(tier string) (jobs []struct {
+	w   int
+	idx []int
+}) {
+	for wi, w := range c14Worlds() {
+		n := len(w.rpcs)
+		for a := 0; a < n; a++ {
+			for b := a; b < n; b++ {
+				jobs = append(jobs, struct {
+					w   int
+					idx []int
+				}{wi, []int{a, b}})
+			}
+		}
+		if tier == "thorough" {
+			for a := 0; a < n; a++ {
+				for b := a + 1; b < n; b++ {
+					for c := b + 1; c < n; c++ {
+						jobs = append(jobs, struct {
+							w   int
+							idx []int
+						}{wi, []int{a, b, c}})
+					}
+				}
+			}
+		}
+	}
+	return jobs
+}
+
+func replayLabel(rf *ReplayFile, key string) (int, bool) {
+	for _, l := range rf.Labels {
+		if strings.HasPrefix(l, key+"=") {
+			n, err := strconv.Atoi(strings.TrimPrefix(l, key+"="))
+			return n, err == nil
+		}
+	}
+	return 0, false
+}
+
+// replayReport prints the verdict of a replayed custom execution (run twice: both runs
+// must observe the same thing, else the replay itself is not trustworthy).
+func replayReport(rf *ReplayFile, path string, once func() ([][2]string, string)) int {
+	f1, obs1 := once()
+	f2, obs2 := once()
+	if obs1 != obs2 || len(f1) != len(f2) {
+		fmt.Printf("BROKEN: replaying the same schedule twice gave different observations\n 1: %s\n 2: %s\n", short(obs1), short(obs2))
+		return 2
+	}
+	fmt.Printf("replay %s/%s choices=%v labels=%v\n", rf.Property, rf.Scenario, rf.Choices, rf.Labels)
+	if len(f1) == 0 {
+		fmt.Println("replay: no violation (property holds on this execution)")
+		return 0
+	}
+	for _, f := range f1 {
+		fmt.Printf("VIOLATION property=%s replay=%s\n  clause=%s\n  %s\n", rf.Property, path, f[0], f[1])
+	}
+	return 1
+}
+
+func init() {
+	replayCustom["C14/custom"] = func(rf *ReplayFile, path string) int {
+		if ci, ok := replayLabel(rf, "bconfig"); ok {
+			cfgs := c14bConfigs()
+			if ci >= len(cfgs) {
+				fmt.Println("replay: unknown configuration")
+				return 2
+			}
+			k := cfgs[ci]
+			spec := c14bSpec(k, nil)
+			return replayReport(rf, path, func() ([][2]string, string) {
+				run, view, pi := c14bExec(k, rf.Choices, false)
+				if run.Diverged != "" {
+					return [][2]string{{"harness.replay-diverged", run.Diverged}}, view
+				}
+				return c14bJudge(run, view, pi, spec), view + compressTrace(run.Trace)
+			})
+		}
+		ji, ok := replayLabel(rf, "job")
+		jobs := c14Jobs(rf.Tier)
+		if !ok || ji >= len(jobs) {
+			fmt.Println("replay: the file does not name a job of this tier (solo-run findings have no schedule to replay)")
+			return 2
+		}
+		j := jobs[ji]
+		w := c14Worlds()[j.w]
+		solo := map[string]c14Outcome{}
+		for _, i := range j.idx {
+			_, outs, _, _ := c14Exec(w, []int{i}, nil, true)
+			solo[fmt.Sprintf("%d/%d", j.w, i)] = outs[0]
+		}
+		return replayReport(rf, path, func() ([][2]string, string) {
+			run, outs, stats, problem := c14Exec(w, j.idx, rf.Choices, false)
+			if run.Diverged != "" {
+				return [][2]string{{"harness.replay-diverged", run.Diverged}}, ""
+			}
+			return c14Judge(w, j.w, j.idx, solo, run, outs, stats, problem), fmt.Sprint(outs) + compressTrace(run.Trace)
+		})
+	}
 }
 
 // compressTrace renders a schedule as runs: name x count.
